@@ -27,9 +27,9 @@ PLAN = {
              title="transition execution order"),
  "C03": dict(machines=["hier3", "histN", "histS", "pseudo", "compl", "ortho"], profile=RESTART, mc=MC_RESTART, invariants=["P_C03"],
              title="active configuration integrity"),
- "C04": dict(machines=["hier2", "compl", "defer", "flat"], profile=QUEUE, mc=MC_QUEUE, invariants=["P_C04"],
+ "C04": dict(configs=ALL + ["back_circ"], machines=["hier2", "compl", "defer", "flat", "deferq"], profile=QUEUE, mc=MC_QUEUE, invariants=["P_C04"],
              title="run to completion / FIFO / exactly once"),
- "C05": dict(machines=["defer", "defer2"], profile=DEFER, mc=dict(MC_QUEUE, maxcalls=4, budget=0, dirops=(), direvs=()), invariants=["P_C05"],
+ "C05": dict(machines=["defer", "defer2", "deferq", "defer3"], profile=DEFER, mc=dict(MC_QUEUE, maxcalls=4, budget=0, dirops=(), direvs=()), invariants=["P_C05"],
              title="deferred events"),
  "C06": dict(suite=True, machines=["flat", "ortho", "hier2", "hier3"], profile=PLAIN, mc=MC_PLAIN, invariants=["P_C06"],
              title="orthogonal regions, result, no_transition"),
@@ -45,7 +45,7 @@ PLAN = {
              title="terminate / interrupt"),
  "C12": dict(machines=["hier2", "policy1", "policy2", "policy3", "compl"], profile=THROW, mc=MC_THROW, invariants=["P_C12"],
              title="exceptions"),
- "C13": dict(machines=["flat", "ortho", "hier2", "hier3", "compl", "block"], profile=dict(MIXED, throws=0.1), mc=MC_PLAIN, invariants=[],
+ "C13": dict(configs=ALL + ["back_circ"], machines=["flat", "ortho", "hier2", "hier3", "compl", "block"], profile=dict(MIXED, throws=0.1), mc=MC_PLAIN, invariants=[],
              title="back-end / policy / strategy equivalence"),
  "C14": dict(machines=["fe_flat", "fe_hier2", "fe_guards"], profile=dict(PLAIN, subs=0.1), mc=MC_PLAIN, invariants=["P_C01", "P_C02"],
              frontends={"functor": ALL, "basic": ALL, "puml": ["back", "back11", "mp11", "mp11_fct"]},
